@@ -100,7 +100,7 @@ def random_packaging(rng, nlines):
     return {"mode": "files", "bom": rng.random() < 0.5, "bom_parts": rng.sample(range(k), rng.randint(1, k)),
             "cuts": cuts, "end": [rng.random() < 0.5 for _ in range(k)],
             "no_final_newline": [i for i in range(k) if rng.random() < 0.35],
-            "end_spelling": rng.choice(["End\n", "End\r\n", "  End  \n", "End # bye\n", "End"]),
+            "end_spelling": rng.choice(["End\n", "End\r\n", "  End  \n", "End # bye\n", "End", "\tEnd\n", " \t End\t\n", "End\t# bye\r\n"]),
             "crlf_all": rng.random() < 0.25}
 
 
